@@ -105,6 +105,16 @@ impl BitBuffer {
         result
     }
 
+    /// Fails if less than `bit_len` bits are left between the read- and the write-position
+    #[inline]
+    fn ensure_can_read_bits(&self, bit_len: usize) -> Result<(), Error> {
+        if self.write_position.saturating_sub(self.read_position) < bit_len {
+            Err(ErrorKind::EndOfStream.into())
+        } else {
+            Ok(())
+        }
+    }
+
     pub fn ensure_can_write_additional_bits(&mut self, bit_len: usize) {
         if self.write_position + bit_len >= self.buffer.len() * BYTE_LEN {
             let required_len = ((self.write_position + bit_len) + 7) / BYTE_LEN;
@@ -139,6 +149,7 @@ impl BitRead for BitBuffer {
 
     #[inline]
     fn read_bits(&mut self, dst: &mut [u8]) -> Result<(), Error> {
+        self.ensure_can_read_bits(dst.len() * BYTE_LEN)?;
         BitRead::read_bits(&mut (&self.buffer[..], &mut self.read_position), dst)
     }
 
@@ -148,6 +159,7 @@ impl BitRead for BitBuffer {
         dst: &mut [u8],
         dst_bit_offset: usize,
     ) -> Result<(), Error> {
+        self.ensure_can_read_bits((dst.len() * BYTE_LEN).saturating_sub(dst_bit_offset))?;
         BitRead::read_bits_with_offset(
             &mut (&self.buffer[..], &mut self.read_position),
             dst,
@@ -157,6 +169,7 @@ impl BitRead for BitBuffer {
 
     #[inline]
     fn read_bits_with_len(&mut self, dst: &mut [u8], dst_bit_len: usize) -> Result<(), Error> {
+        self.ensure_can_read_bits(dst_bit_len)?;
         BitRead::read_bits_with_len(
             &mut (&self.buffer[..], &mut self.read_position),
             dst,
@@ -171,6 +184,7 @@ impl BitRead for BitBuffer {
         dst_bit_offset: usize,
         dst_bit_len: usize,
     ) -> Result<(), Error> {
+        self.ensure_can_read_bits(dst_bit_len)?;
         BitRead::read_bits_with_offset_len(
             &mut (&self.buffer[..], &mut self.read_position),
             dst,
@@ -273,6 +287,18 @@ impl<'a> From<&'a BitBuffer> for Bits<'a> {
     }
 }
 
+impl Bits<'_> {
+    /// Fails if less than `bit_len` bits are left before the (visible) length is reached
+    #[inline]
+    fn ensure_can_read_bits(&self, bit_len: usize) -> Result<(), Error> {
+        if self.len.saturating_sub(self.pos) < bit_len {
+            Err(ErrorKind::EndOfStream.into())
+        } else {
+            Ok(())
+        }
+    }
+}
+
 impl BitRead for Bits<'_> {
     #[inline]
     fn read_bit(&mut self) -> Result<bool, Error> {
@@ -285,6 +311,7 @@ impl BitRead for Bits<'_> {
 
     #[inline]
     fn read_bits(&mut self, dst: &mut [u8]) -> Result<(), Error> {
+        self.ensure_can_read_bits(dst.len() * BYTE_LEN)?;
         BitRead::read_bits(&mut (self.slice, &mut self.pos), dst)
     }
 
@@ -294,11 +321,13 @@ impl BitRead for Bits<'_> {
         dst: &mut [u8],
         dst_bit_offset: usize,
     ) -> Result<(), Error> {
+        self.ensure_can_read_bits((dst.len() * BYTE_LEN).saturating_sub(dst_bit_offset))?;
         BitRead::read_bits_with_offset(&mut (self.slice, &mut self.pos), dst, dst_bit_offset)
     }
 
     #[inline]
     fn read_bits_with_len(&mut self, dst: &mut [u8], dst_bit_len: usize) -> Result<(), Error> {
+        self.ensure_can_read_bits(dst_bit_len)?;
         BitRead::read_bits_with_len(&mut (self.slice, &mut self.pos), dst, dst_bit_len)
     }
 
@@ -309,6 +338,7 @@ impl BitRead for Bits<'_> {
         dst_bit_offset: usize,
         dst_bit_len: usize,
     ) -> Result<(), Error> {
+        self.ensure_can_read_bits(dst_bit_len)?;
         BitRead::read_bits_with_offset_len(
             &mut (self.slice, &mut self.pos),
             dst,
